@@ -1,6 +1,7 @@
 """The per-property checks: case generation, correspondence (Lean model vs
 implementation), specification oracles on implementation outputs."""
 import json
+import random
 import os
 import re
 import shutil
@@ -550,6 +551,12 @@ def grammar_pool(rng, n_random, usize=True, names="plain", max_nt=4, max_t=4, ma
             continue
         items = gen.random_grammar(rng, names=names, payload="usize" if usize else "mixed", derive=True, max_nt=max_nt, max_t=max_t, maxlen=maxlen, min_t=min_t)
         out.append((f"random{k}", items, gen.render(items), gen.to_oracle(items)))
+    # every third grammar of the structured generators also through the named-fieldset code paths
+    nrng = random.Random(f"namedify-{n_random}")
+    for j, (label, items, text, G) in enumerate(out):
+        if j % 3 == 1 and not label.startswith("random") and not label.startswith("size"):
+            it2 = gen.namedify(items, nrng)
+            out[j] = (label + "-named", it2, gen.render(it2), gen.to_oracle(it2))
     return out
 
 
